@@ -1141,6 +1141,19 @@ func main() {
 	}
 	defer os.RemoveAll(base)
 	_, _, isWorker := par.Worker()
+	if ev.Arg("--only") == "round2" { // development / mutation runs of the round-2 phases alone (no evidence file)
+		_ = os.Setenv("VERIF_NOEVIDENCE", "1")
+		if isWorker {
+			round2Worker(base, thorough)
+			os.RemoveAll(base)
+			return
+		}
+		r := ev.New("C03", "model_checking")
+		round2Master(r, thorough)
+		os.RemoveAll(base)
+		r.Finish()
+		return
+	}
 	sc := &sched{batches: []string{"B0", "B1", "B2", "B4"}, maxWrites: 3, maxMaint: 5, base: base}
 	if thorough {
 		sc.batches, sc.maxMaint = batchOrder[:6], 7
@@ -1172,6 +1185,9 @@ func main() {
 		}
 		if os.Getenv("C03_SPOOL") != "" {
 			streamPoolWorker(base, thorough)
+		}
+		if os.Getenv("C03_R2") != "" {
+			round2Worker(base, thorough) // round2.go
 		}
 		os.RemoveAll(base)
 		return
@@ -1280,6 +1296,9 @@ func main() {
 	r.Assume("the reference model (Go maps: version-resolved union) is correct")
 	fmt.Printf("C03: measure states=%d transitions=%d pool_states=%d | sidx states=%d transitions=%d | distinct_outcomes=%d\n",
 		st.States, st.Transitions, ps.Histories+bs.Histories, sst.States, sst.Transitions, st.DistinctOutcomes+sst.DistinctOutcomes)
+	if ev.Arg("--round2") != "off" {
+		round2Master(r, thorough) // round2.go: two interleaved measure merges; sidx query in flight across an introduction
+	}
 	streamReport(r, strm, strmSched, thorough) // stream.go: violations, merge pools, coverage
 	os.RemoveAll(base)                         // Finish exits the process, deferred calls do not run
 	r.Finish()
@@ -1303,6 +1322,10 @@ func replay(p string) {
 	defer os.RemoveAll(base)
 	if strings.HasPrefix(a.Artefact.Phase, "stream") {
 		replayStream(a.Artefact.Phase, a.Artefact.Hist, a.Key, base+"/t")
+		return
+	}
+	if a.Artefact.Phase == "pair" {
+		replayPair(a.Artefact.Hist, a.Key, base+"/t")
 		return
 	}
 	if a.Artefact.Phase == "sidx" {
